@@ -85,6 +85,7 @@ type BlobOpt func(*blobConfig) error
 type blobConfig struct {
 	algo   digest.Algorithm
 	expect digest.Digest
+	locked bool
 }
 
 func BlobWithAlgorithm(a digest.Algorithm) BlobOpt {
@@ -104,6 +105,14 @@ func BlobWithDigest(d digest.Digest) BlobOpt {
 		}
 		bc.expect = d
 		bc.algo = d.Algorithm()
+		return nil
+	}
+}
+
+// blobWithLocked indicates the caller already holds the lock on the repo.
+func blobWithLocked(locked bool) BlobOpt {
+	return func(bc *blobConfig) error {
+		bc.locked = locked
 		return nil
 	}
 }
@@ -245,7 +254,7 @@ func indexIngest(repo Repo, index *types.Index, conf config.Config, locked bool)
 				return mod, fmt.Errorf("failed to marshal referrers response: %w", err)
 			}
 			dig := digest.Canonical.FromBytes(respRaw)
-			bc, _, err := repo.BlobCreate(BlobWithDigest(dig))
+			bc, _, err := repo.BlobCreate(BlobWithDigest(dig), blobWithLocked(locked))
 			if err != nil {
 				return mod, err
 			}
